@@ -135,6 +135,19 @@ def run_unit(name, mod, only_props, tier):
                     results.append(((case or {}).get("name", "") + gname, okk, g, hh))
             ob.vcs = len(results)
             bad = [r for r in results if not r[1]]
+            if not bad and tier == "thorough":
+                # independent cross-check of the Groebner verdicts: exact evaluation at random rational points
+                # of the hypotheses' variety (does not go through sympy.groebner / reduced)
+                for gname, _, g, hyps in results:
+                    pt, val = pv.find_refutation(g, hyps, seed + 17, tries=12)
+                    info["crosscheck_points"] = info.get("crosscheck_points", 0) + 12
+                    if pt:
+                        bad.append((gname, False, g, hyps))
+                        ob.detail += "thorough cross-check DISAGREES with the Groebner reduction on clause %s at %s\n" % (gname, pt)
+                if bad:
+                    ob.status = UNDECIDED
+                    ob.seconds = time.time() - t0
+                    continue
             if not bad:
                 ob.status = DISCHARGED
             else:
@@ -158,6 +171,9 @@ def run_unit(name, mod, only_props, tier):
         except (pv.Unsupported, rs.ScanError) as e:
             ob.status = UNDECIDED
             ob.detail = "%s: %s" % (type(e).__name__, e)
+        except Exception as e:  # a crash of the generator is a tool limit, never an alarm
+            ob.status = UNDECIDED
+            ob.detail = "PolyVC internal error: %s: %s" % (type(e).__name__, e)
         ob.seconds = time.time() - t0
         info["solver_s"] += ob.seconds
 
